@@ -195,7 +195,7 @@ def gen_envs(argspecs, seed=0, limit=2600):
     for s in range(C):
         for k in (1, 3, 5):
             others.append(("rot", s, k))
-    for i in range(60):
+    for i in range(60 if any(b > 128 and lb and lb <= 8 for (b, lb, dom) in argspecs) else 400):
         others.append(("rnd", i, 0))
     # interleave: vectors whose lanes differ must be reached even when the work budget only allows a
     # prefix of the list (cross-lane mix-ups are invisible on uniform vectors)
@@ -234,7 +234,9 @@ def gen_envs(argspecs, seed=0, limit=2600):
             break
 
 
+BDD_NODES = [250000]    # node budget of the ROBDD comparison per lane form (the thorough tier raises it)
 DAZ_MODE = [False]      # also evaluate under MXCSR.DAZ (set by rules whose specification is not a float operation: masks)
+EXTRA_UNIFORM = [False]   # rule-specific points are used as uniform vectors (one of the operands is a scalar)
 EXTRA_POINTS = [None]   # rule-specific paired lane values [{argname: lane value}], tried first (uniform vectors)
 NUMEQ = [False]     # compare float lanes as numbers (+0 == -0): set by rules whose statement says "same number"
 NANEQ = [False]     # two NaN lanes count as equal (payload / sign of a NaN result unspecified), zeros keep their sign
@@ -403,9 +405,10 @@ def _find_witness(actual, expected, argspecs, names, lane_bits, seed, env_ok, wa
         ex = []
         pts = EXTRA_POINTS[0]
         nl = max([b // lb for (b, lb, dom) in argspecs if lb] + [1])
-        for c0 in range(0, len(pts), nl):
-            chunk = pts[c0:c0 + nl]
-            chunk = chunk + [chunk[0]] * (nl - len(chunk))     # one point per lane
+        step = 1 if EXTRA_UNIFORM[0] else nl
+        for c0 in range(0, len(pts), step):
+            chunk = pts[c0:c0 + step]
+            chunk = chunk + [chunk[0]] * (nl - len(chunk))     # one point per lane (the same point in every lane if uniform)
             args = []
             for ai, (b, lb, dom) in enumerate(argspecs):
                 nm = names[ai] if ai < len(names) else None
@@ -685,6 +688,116 @@ def exhaustive_lanes(actual, expected, argspecs, names, lane_bits, env_ok=None, 
     return "HOLDS", points
 
 
+def bdd_lanes(actual, expected, argspecs, names, lane_bits, env_ok=None):
+    """ROBDD comparison of the two closed forms (lib/bdd.py).  A differing assignment is only reported after
+    term.ev has evaluated both forms on it (and it lies in the documented domain)."""
+    import bdd
+    lb = lane_bits
+    nlanes = None
+    if lb is None and MASK_LANES[0]:
+        lb, nlanes = MASK_LANES[0]
+    if lb is None or actual[1] % lb:
+        lb = actual[1]
+    n = actual[1] // lb
+    nl = nlanes or n
+    vec_args = {k for k, (b, l_, d) in enumerate(argspecs) if l_ and b // l_ == nl and nl > 1}
+
+    def rebase(i, ta, te):
+        if not i:
+            return (id(ta), id(te))
+        shift = {k: (i * argspecs[k][1] if i < nl else 0) for k in vec_args}
+        return (id(_rebase(ta, shift, vec_args, {})), id(_rebase(te, shift, vec_args, {})))
+    v, info = bdd.decide(actual, expected, argspecs, lb, nlanes, rebase, max_nodes=BDD_NODES[0])
+    if v != "REFUTED":
+        return v, info
+    args = [info.get(k, 0) for k in range(len(argspecs))]
+    for k, (b, l_, dom) in enumerate(argspecs):
+        if dom is not None and dom(args[k]) != args[k]:
+            return None, "the diagrams differ only outside the documented domain (or also there: not searched)"
+    if env_ok is not None:
+        # make the other lanes valid by replicating lane values is not attempted: the point must be valid as is
+        ok = env_ok(args, names)
+        if not ok:
+            return None, "the diagrams differ at a point outside the documented domain"
+    r = _one_env(actual, expected, args, names, lane_bits, None, "RN", False)
+    if r is None:
+        return None, "BDD witness not confirmed by the evaluator (internal disagreement: treated as undecided)"
+    r["found_by"] = "path to 1 in the XOR of two output-bit diagrams"
+    return "REFUTED", r
+
+
+def _lane_sets(t, vec_args, argspecs, memo):
+    """bit mask of the vector lanes whose argument bits t mentions (memoised on term identity)"""
+    r = memo.get(id(t))
+    if r is not None:
+        return r
+    if t[0] == "arg":
+        r = 0
+        if t[2] in vec_args:
+            lb = argspecs[t[2]][1]
+            for l in range(t[3] // lb, (t[3] + t[1] - 1) // lb + 1):
+                r |= 1 << l
+    elif t[0] == "const":
+        r = 0
+    else:
+        r = 0
+        for x in t[2:]:
+            if isinstance(x, tuple):
+                r |= _lane_sets(x, vec_args, argspecs, memo)
+    memo[id(t)] = r
+    return r
+
+
+def abstract_other_lanes(t, lane, vec_args, argspecs, fresh, lmemo, memo):
+    """t with every maximal sub-term that mentions only lanes other than `lane` replaced by a fresh,
+    unconstrained variable (the same sub-term always by the same variable).  The result over-approximates t:
+    whatever the other lanes hold, the value of t is the value of the result for some assignment of the fresh
+    variables - so a statement proved for all assignments of the result holds for t on all inputs."""
+    r = memo.get(id(t))
+    if r is not None:
+        return r
+    ls = _lane_sets(t, vec_args, argspecs, lmemo)
+    if ls and not (ls >> lane) & 1:
+        k = fresh.get(id(t))
+        if k is None:
+            k = fresh[id(t)] = (len(argspecs) + len(fresh), t)
+        r = T.arg(k[0], 0, t[1])
+    elif not ls or t[0] in ("arg", "const"):
+        r = t
+    else:
+        r = T.mk(t[0], t[1], *[abstract_other_lanes(x, lane, vec_args, argspecs, fresh, lmemo, memo) if isinstance(x, tuple) else x
+                               for x in t[2:]])
+    memo[id(t)] = r
+    return r
+
+
+def bdd_lanes_abstract(actual, expected, argspecs, lane_bits):
+    """Lane-by-lane ROBDD comparison for forms whose lanes mention other lanes only through conditions
+    (early exits of emulation loops): the other lanes are abstracted into free variables.  Only HOLDS is
+    meaningful (a difference may be an artefact of the abstraction): returns ('HOLDS', info) or (None, reason)"""
+    import bdd
+    n = actual[1] // lane_bits
+    vec_args = {k for k, (b, l_, d) in enumerate(argspecs) if l_ and b // l_ == n and n > 1}
+    lmemo = {}
+    nodes = 0
+    nfresh = 0
+    for i in range(n):
+        ta = T.slice_(actual, i * lane_bits, lane_bits)
+        te = T.slice_(expected, i * lane_bits, lane_bits)
+        if ta is te:
+            continue
+        if _lane_sets(te, vec_args, argspecs, lmemo) & ~(1 << i):
+            return None, "the specification of lane %d mentions other lanes" % i
+        fresh = {}
+        ab = abstract_other_lanes(ta, i, vec_args, argspecs, fresh, lmemo, {})
+        specs = list(argspecs) + [(t_[1], -1, None) for (k_, t_) in sorted(fresh.values(), key=lambda z: z[0])]
+        v, info = bdd.decide(ab, te, specs, lane_bits, None, None, max_nodes=BDD_NODES[0])
+        if v != "HOLDS":
+            return None, "lane %d: %s" % (i, info if v is None else "differs for some value of the abstracted conditions")
+        nfresh += len(fresh)
+    return "HOLDS", "%d lanes, other lanes abstracted into %d free sub-terms" % (n, nfresh)
+
+
 def absint_lanes(actual, expected, argspecs, lane_bits, nlanes=None):
     """Decide lane-wise one-operand functions by abstract interpretation under complete case splits
     (lib/absint.py).  returns ('HOLDS', description) or (None, reason)"""
@@ -822,21 +935,38 @@ def _compare(actual, expected, summary, argspecs, names, lane_bits, pure=True, e
                 info, T.show(T.slice_(actual, 0, min(actual[1], lane_bits or actual[1])), 2, names)), None
         if ex == "REFUTED":
             return REFUTED, T.show(actual, 5, names), info
+        # complete procedures first (they end the analysis of a correct instance early), the heuristic
+        # witness search last:
+        # (1) abstract interpretation under complete case splits (one-operand lane functions)
+        ainfo = None
+        try:
+            ax, ainfo = absint_lanes(actual, expected, argspecs, lane_bits if lane_bits is not None or not MASK_LANES[0]
+                                     else MASK_LANES[0][0], nlanes=(MASK_LANES[0][1] if lane_bits is None and MASK_LANES[0] else None))
+        except T.TooBig:
+            ax, ainfo = None, "budget"
+        if ax == "HOLDS":
+            if pure and summary.accesses:
+                return UNDECIDED, "value matches but the function touches memory", None
+            return HOLDS, ainfo + "; " + T.show(T.slice_(actual, 0, min(actual[1], lane_bits or actual[1])), 2, names), None
+        info = "%s; %s" % (info, ainfo)
+        # (2) canonical normal form (ROBDD per output bit) of both closed forms: complete for integer forms whose
+        # diagrams stay small (adders, comparators, field-wise bit counting); float steps are not blasted
+        if not (T.has_fp(actual) or T.has_fp(expected) or T.contains_op(actual, ("fcmp", "mem")) or T.contains_op(expected, ("fcmp", "mem"))):
+            try:
+                bv, binfo = bdd_lanes(actual, expected, argspecs, names, lane_bits, env_ok)
+            except T.TooBig:
+                bv, binfo = None, "budget"
+            if bv == "HOLDS":
+                if pure and summary.accesses:
+                    return UNDECIDED, "value matches but the function touches memory", None
+                return HOLDS, "identical reduced ordered BDDs for every output bit (%s); %s" % (
+                    binfo, T.show(T.slice_(actual, 0, min(actual[1], lane_bits or actual[1])), 2, names)), None
+            if bv == "REFUTED":
+                return REFUTED, T.show(actual, 5, names), binfo
+            info = "%s; BDD: %s" % (info, binfo)
+        # (3) heuristic search for a distinguishing input on the boundary lattice
         w = find_witness(actual, expected, argspecs, names, lane_bits, env_ok=env_ok, watch=_watch(summary))
         if w is not None:
             return REFUTED, T.show(actual, 5, names), w
-        if True:
-            # agreement on every input of the lane (a superset of any documented domain); overflow-flagged
-            # operations are searched separately by compare() once the value verdict is HOLDS
-            try:
-                ax, ainfo = absint_lanes(actual, expected, argspecs, lane_bits if lane_bits is not None or not MASK_LANES[0]
-                                         else MASK_LANES[0][0], nlanes=(MASK_LANES[0][1] if lane_bits is None and MASK_LANES[0] else None))
-            except T.TooBig:
-                ax, ainfo = None, "budget"
-            if ax == "HOLDS":
-                if pure and summary.accesses:
-                    return UNDECIDED, "value matches but the function touches memory", None
-                return HOLDS, ainfo + "; " + T.show(T.slice_(actual, 0, min(actual[1], lane_bits or actual[1])), 2, names), None
-            info = "%s; %s" % (info, ainfo)
         return UNDECIDED, "forms differ, no separating point found (%s): " % info + T.show(actual, 4, names), None
     return UNDECIDED, T.show(actual, 4, names), None
